@@ -1,5 +1,6 @@
 import inspect
 import sys
+import threading
 from typing import Callable, Dict, List, Optional, Set, Tuple, Type, Union, Any
 
 from ..utils import exceptions as exc
@@ -11,6 +12,8 @@ from .options import Options, RuntimeContext
 from .rule import resolve_forward_type
 
 __parsers__ = {}
+# first use of a type from several threads: pending references are resolved by one thread at a time
+_forward_refs_lock = threading.RLock()
 
 
 class BaseParser:
@@ -211,60 +214,71 @@ class BaseParser:
     def resolve_forward_refs(self, local_vars=None, ignore_errors: bool = True):
         if not self.forward_refs:
             return False
+        with _forward_refs_lock:
+            return self._resolve_forward_refs(local_vars, ignore_errors)
+
+    def _resolve_forward_refs(self, local_vars, ignore_errors: bool):
         clear_refs = []
         resolved = False
+        resolved_names = []
         # todo: add resolve hooks so that application code can execute lazy-load type process logic
-        for name in list(self.forward_refs):
-            ref, constraints = self.forward_refs[name]
-            try:
-                evaluate_forward_ref(ref, self.globals, local_vars)
-                if ref.__forward_evaluated__:
-                    # evaluated successfully, pop
-                    value = ref.__forward_value__
-                    if not isinstance(value, type):
-                        # maybe some very foolish ForwardRef like
-                        # a: "List[str, SomeClass]"
-                        # we will just treat this nicely
-                        __origin = get_origin(value)
-                    else:
-                        __origin = value
-                    if __origin:
-                        ref.__forward_value__ = self.rule_cls.parse_annotation(
-                            annotation=value,
-                            constraints=constraints,
-                            global_vars=self.globals,
-                            forward_refs=self.forward_refs,
-                            forward_key=name,
-                        )
-                    else:
-                        # maybe just ref to some const
-                        # a: PositiveInt | '"some value"'
-                        # we will not go through the ForwardRef
-                        # as the typing star
-                        ref.__forward_value__ = self.rule_cls.annotate(
-                            type_=type(value),
-                            constraints={"const": ref.__forward_value__},
-                        )
-                    resolved = True
-                    if self.is_local:
-                        clear_refs.append(ref)
-                    self.forward_refs.pop(name)
-            except Exception:
-                if ignore_errors:
-                    continue
-                raise
-        if resolved:
-            for field in self.fields.values():
-                field.resolve_forward_refs()
-            # resolve for types
-            self.addition_type, r = resolve_forward_type(self.addition_type)
-        if self.is_local:
-            # ForwardRef in local vars is not cachable
-            # where typing is using a lru_cache
-            # we should clear
-            for ref in clear_refs:
-                ref.__forward_evaluated__ = False
-                ref.__forward_value__ = None
+        try:
+            for name in list(self.forward_refs):
+                ref, constraints = self.forward_refs[name]
+                try:
+                    evaluate_forward_ref(ref, self.globals, local_vars)
+                    if ref.__forward_evaluated__:
+                        # evaluated successfully, pop
+                        value = ref.__forward_value__
+                        if not isinstance(value, type):
+                            # maybe some very foolish ForwardRef like
+                            # a: "List[str, SomeClass]"
+                            # we will just treat this nicely
+                            __origin = get_origin(value)
+                        else:
+                            __origin = value
+                        if __origin:
+                            ref.__forward_value__ = self.rule_cls.parse_annotation(
+                                annotation=value,
+                                constraints=constraints,
+                                global_vars=self.globals,
+                                forward_refs=self.forward_refs,
+                                forward_key=name,
+                            )
+                        else:
+                            # maybe just ref to some const
+                            # a: PositiveInt | '"some value"'
+                            # we will not go through the ForwardRef
+                            # as the typing star
+                            ref.__forward_value__ = self.rule_cls.annotate(
+                                type_=type(value),
+                                constraints={"const": ref.__forward_value__},
+                            )
+                        resolved = True
+                        if self.is_local:
+                            clear_refs.append(ref)
+                        resolved_names.append(name)
+                except Exception:
+                    if ignore_errors:
+                        continue
+                    raise
+            if resolved:
+                for field in self.fields.values():
+                    field.resolve_forward_refs()
+                # resolve for types
+                self.addition_type, r = resolve_forward_type(self.addition_type)
+            if self.is_local:
+                # ForwardRef in local vars is not cachable
+                # where typing is using a lru_cache
+                # we should clear
+                for ref in clear_refs:
+                    ref.__forward_evaluated__ = False
+                    ref.__forward_value__ = None
+        finally:
+            # a resolved name stays listed until the fields that use it are rewritten, so that
+            # "nothing pending" means "nothing left to do" for a thread that did not take the lock
+            for name in resolved_names:
+                self.forward_refs.pop(name, None)
         return resolved
 
     @classmethod
